@@ -7,6 +7,7 @@ import (
 	"fmt"
 	"go/token"
 	"go/types"
+	"sort"
 	"strings"
 
 	"golang.org/x/tools/go/ssa"
@@ -292,6 +293,12 @@ func runErrflow(c *Ctx, cfg errflowCfg) {
 						c.Bad(cfg.rule, key, pos, "error result of "+short+" is never tested nor returned (assigned and overwritten or ignored)")
 						continue
 					}
+					if strict {
+						if at, dropped := errorDroppedOnSomePath(fn, call, e); dropped {
+							c.Bad(cfg.rule, key, pos, "error of "+short+" is tested on some paths but on a path through "+at+" it is overwritten or the function returns without it having been looked at: that failure is reported as success")
+							continue
+						}
+					}
 					allOK := true
 					detail := ""
 					for _, t := range tests {
@@ -415,4 +422,175 @@ func shortID(id string) string {
 	id = strings.ReplaceAll(id, "github.com/massnetorg/mass-core/", "mass-core/")
 	id = strings.ReplaceAll(id, "github.com/syndtr/goleveldb/", "")
 	return id
+}
+
+// errorDroppedOnSomePath: path-sensitive liveness of one error value. Starting after the call, the
+// error is tracked through phi edges, local variable cells (store / load / overwrite) and interface
+// conversions; a path is satisfied when the error is compared, returned, passed to a call or stored
+// into a variable that escapes to a closure. A path that reaches a return, or loses every name and
+// cell holding the error (overwritten), without such a use drops the error.
+func errorDroppedOnSomePath(fn *ssa.Function, call *ssa.Call, e ssa.Value) (string, bool) {
+	escaping := func(cell ssa.Value) bool {
+		a, ok := cell.(*ssa.Alloc)
+		if !ok {
+			return true // fields, globals, captured variables: someone else may look at it
+		}
+		if refs := a.Referrers(); refs != nil {
+			for _, r := range *refs {
+				switch r.(type) {
+				case *ssa.MakeClosure:
+					return true
+				case *ssa.Store, *ssa.UnOp:
+				default:
+					if _, isDbg := r.(*ssa.DebugRef); !isDbg {
+						if st, isSt := r.(*ssa.Store); !isSt || st.Addr != ssa.Value(a) {
+							return true
+						}
+					}
+				}
+			}
+		}
+		return false
+	}
+	type state struct {
+		b     *ssa.BasicBlock
+		start int
+		names map[ssa.Value]bool
+		cells map[ssa.Value]bool
+	}
+	keyOf := func(st state) string {
+		var ks []string
+		for v := range st.names {
+			ks = append(ks, "n"+v.Name())
+		}
+		for v := range st.cells {
+			ks = append(ks, "c"+v.Name())
+		}
+		sort.Strings(ks)
+		return fmt.Sprintf("%d|%d|%s", st.b.Index, st.start, strings.Join(ks, ","))
+	}
+	startIdx := 0
+	for i, in := range call.Block().Instrs {
+		if in == ssa.Instruction(call) {
+			startIdx = i + 1
+		}
+	}
+	init := state{call.Block(), startIdx, map[ssa.Value]bool{e: true}, map[ssa.Value]bool{}}
+	// e may be an Extract placed after the call: names are values, position does not matter
+	seen := map[string]bool{}
+	work := []state{init}
+	steps := 0
+	for len(work) > 0 {
+		st := work[len(work)-1]
+		work = work[:len(work)-1]
+		k := keyOf(st)
+		if seen[k] {
+			continue
+		}
+		seen[k] = true
+		steps++
+		if steps > 4000 {
+			return "", false // give up quietly: the existing rules still apply
+		}
+		names, cells := map[ssa.Value]bool{}, map[ssa.Value]bool{}
+		for v := range st.names {
+			names[v] = true
+		}
+		for v := range st.cells {
+			cells[v] = true
+		}
+		satisfied := false
+		for i := st.start; i < len(st.b.Instrs) && !satisfied; i++ {
+			in := st.b.Instrs[i]
+			switch x := in.(type) {
+			case *ssa.Phi, *ssa.DebugRef:
+				continue
+			case *ssa.Store:
+				if names[x.Val] {
+					if escaping(x.Addr) {
+						satisfied = true
+					} else {
+						cells[x.Addr] = true
+					}
+				} else if cells[x.Addr] {
+					delete(cells, x.Addr)
+				}
+				continue
+			case *ssa.UnOp:
+				if x.Op == token.MUL && cells[x.X] {
+					names[x] = true
+				}
+				continue
+			case *ssa.MakeInterface:
+				if names[x.X] {
+					names[x] = true
+				}
+				continue
+			case *ssa.ChangeInterface:
+				if names[x.X] {
+					names[x] = true
+				}
+				continue
+			case *ssa.Extract:
+				continue
+			case *ssa.Return:
+				for _, r := range x.Results {
+					if names[r] {
+						satisfied = true
+					}
+				}
+				if !satisfied {
+					return "the return at line " + fmt.Sprint(fn.Prog.Fset.Position(x.Pos()).Line), true
+				}
+				continue
+			}
+			for _, op := range in.Operands(nil) {
+				if op != nil && *op != nil && names[*op] {
+					satisfied = true
+				}
+			}
+		}
+		if satisfied {
+			continue
+		}
+		if len(names) == 0 && len(cells) == 0 {
+			return "block " + fmt.Sprint(st.b.Index) + " (overwritten)", true
+		}
+		if len(st.b.Succs) == 0 {
+			continue // panic/exit blocks
+		}
+		for _, s := range st.b.Succs {
+			pi := -1
+			for i, p := range s.Preds {
+				if p == st.b {
+					pi = i
+				}
+			}
+			nn := map[ssa.Value]bool{}
+			for v := range names {
+				// an SSA value stays available where its definition dominates
+				if vi, ok := v.(ssa.Instruction); ok && vi.Block() != nil && vi.Block().Dominates(s) {
+					nn[v] = true
+				}
+			}
+			for _, in := range s.Instrs {
+				ph, ok := in.(*ssa.Phi)
+				if !ok {
+					break
+				}
+				if pi >= 0 && pi < len(ph.Edges) && names[ph.Edges[pi]] {
+					nn[ph] = true
+				}
+			}
+			nc := map[ssa.Value]bool{}
+			for v := range cells {
+				nc[v] = true
+			}
+			if len(nn) == 0 && len(nc) == 0 {
+				return "the edge into block " + fmt.Sprint(s.Index) + " (value no longer held by any variable)", true
+			}
+			work = append(work, state{s, 0, nn, nc})
+		}
+	}
+	return "", false
 }
